@@ -891,6 +891,13 @@ def generate(verbose=False):
     tables = {"indent": it, "rules": rrows, "classes": crow, "chars": {k: (v if k not in ("lowerPairs", "upperPairs") else v) for k, v in ct.items()}, "symbols": sym, "classify": cft}
     with open(os.path.join(CACHE, "tables.json"), "w") as f:
         json.dump(tables, f)
+    # >>> WP1 layer P: the classifier productions as a program table
+    import gen_prog
+
+    _, prog_changed = gen_prog.generate(crow, classes)
+    if prog_changed:
+        changed.append("ClassifyProg.lean")
+    # <<< WP1 layer P
     if verbose:
         print("generated: %d rules, %d classes; changed files: %s" % (len(rrows), len(crow), changed))
     return tables, changed
